@@ -131,6 +131,13 @@ class Ctx:
             self.solver.pop()
         if r == z3.unknown:
             self.unknown_feas += 1
+            if getattr(self, 'prefer_cvc5', False):
+                from . import solve
+                s2 = z3.Solver()
+                s2.add(self.solver.assertions())
+                s2.add(e)
+                if solve.check_cvc5(s2, 5)[0] == 'unsat':
+                    return False
         return r != z3.unsat
 
     # ---- branching
